@@ -46,7 +46,13 @@ type Tape struct {
 	pos    int
 	Rec    []Draw
 	NoRec  bool
+	max    bool // constant tape: every draw returns n-1
 }
+
+// MaxTape returns a tape whose every draw is the largest value: under the
+// scheduler "always run the highest-numbered runnable task" (producers before
+// their consumer), reversed map order.
+func MaxTape() *Tape { return &Tape{replay: []int{}, max: true, NoRec: true} }
 
 func NewTape(seed uint64, caseNo uint64) *Tape {
 	p := &prng{s: seed*0xD6E8FEB86659FD93 ^ (caseNo+1)*0x9E3779B97F4A7C15}
@@ -68,6 +74,9 @@ func (t *Tape) Draw(label string, n int) int {
 	v := 0
 	if n < 1 {
 		n = 1
+	}
+	if t.max {
+		return n - 1
 	}
 	if t.replay != nil {
 		if t.pos < len(t.replay) {
